@@ -849,3 +849,88 @@ def oid_text_rejections(ctx, rep, rule):
     if n == 0:
         rep.inconclusive(rule, "SnmpOid::try_from(&str)|rejections", "no guarded error exit recognised", body.loc())
 
+
+def arc_loop_exits(ctx, rep, rule):
+    """The loop over the remaining arcs of SnmpOid::try_from(&str) ends only when the text is used up (next() gives None): an
+    arc that fails to parse ends the conversion with an error, it does not end the loop (which would send a truncated OID)."""
+    facts = ctx.facts
+    body = facts.body("<ber::objectid::SnmpOid<'_> as std::convert::TryFrom<&str>>::try_from")
+    if body is None:
+        rep.missing(rule, "SnmpOid::try_from(&str)")
+        return
+    prov = flow.Prov(body)
+    loops = cfg.natural_loops(body)
+    oks = set(flow.blocks_assigning_return(body, lambda rv: rv["k"] == "agg" and rv.get("vname") == "Ok"))
+    n = 0
+    for h, blocks in loops.items():
+        nx = [b for b in body.calls() if b.idx in blocks and (callee_path(b.term) or "").endswith("as std::iter::Iterator>::next")]
+        if not nx:
+            continue
+        n += 1
+        none_edges = set()
+        for sw, t_ in flow.discr_switches(body, prov, lambda t: t[0] == "call" and (t[1] or "").endswith("as std::iter::Iterator>::next")):
+            if sw.idx in blocks:
+                ve = flow.variant_edges(body, sw) or {}
+                if "None" in ve:
+                    none_edges.add((sw.idx, ve["None"]))
+        bad = []
+        for u in sorted(blocks):
+            for v in body.blocks[u].succs():
+                if v in blocks or body.blocks[v].cleanup or (u, v) in none_edges:
+                    continue
+                if cells.variant_reach(body, starts=[v]) & oks:
+                    bad.append((u, v))
+        rep.check(rule, "SnmpOid::try_from(&str)|arc loop#%d ends on None only" % h, not bad, "left for Ok(..) only when the iterator is exhausted",
+                  "the arc loop can be left for a successful return on something else than the end of the text (edges %s): a malformed arc silently "
+                  "truncates the OID" % bad, body.loc(body.blocks[h].term.get("line")), obligation=True)
+    if n == 0:
+        rep.inconclusive(rule, "SnmpOid::try_from(&str)|arc loop", "no loop over the arc iterator found", body.loc())
+
+
+def oid_to_text_rejections(ctx, rep, rule):
+    """BER -> text refuses an OID only when it is empty or the formatter fails: no octet value makes a well-formed OID
+    unprintable (an error exit decided by comparing an octet of the encoding with a constant is reported)."""
+    facts = ctx.facts
+    body = facts.body("ber::objectid::<impl std::convert::TryFrom<&ber::objectid::SnmpOid<'_>> for std::string::String>::try_from")
+    if body is None:
+        rep.missing(rule, "String::try_from(&SnmpOid)")
+        return
+    prov = flow.Prov(body)
+    errs = flow.blocks_assigning_return(body, lambda rv: rv["k"] == "agg" and rv.get("vname") == "Err")
+
+    def octet(t):
+        while t[0] == "cast" or (t[0] == "bin" and t[1] in ("BitAnd", "Shr") and t[3][0] == "const"):
+            t = t[1] if t[0] == "cast" else t[2]
+        if t[0] == "phi":
+            return any(octet(x) for x in t[1])
+        return flow.mentions(t, lambda s_: (s_[0] == "call" and (s_[1] or "").endswith("as std::iter::Iterator>::next")) or s_[0] == "idx") and \
+            not flow.mentions(t, lambda s_: s_[0] == "bin" and s_[1] in ("Shl", "Add", "AddWithOverflow", "BitOr", "Mul"))
+    n = 0
+    for g, pol, tgt in flow.deciding_guards(body, prov, errs):
+        t = g.term
+        n += 1
+        content = t[0] == "bin" and t[1] in ("Eq", "Ne", "Lt", "Le", "Gt", "Ge") and ((octet(t[2]) and t[3][0] == "const") or (octet(t[3]) and t[2][0] == "const"))
+        rep.check(rule, "String::try_from(&SnmpOid)|error exit decided by %s" % flow.fmt(t)[:70], not content, "not an octet value",
+                  "the conversion to text fails because of the value of an octet (%s): well-formed OIDs returned by an agent cannot be rendered" % flow.fmt(t)[:100],
+                  body.loc(g.line), obligation=True)
+    rep.info(rule, "String::try_from(&SnmpOid)|guarded error exits", str(n))
+
+
+def no_notimplemented_on_receive(ctx, rep, rule):
+    """SnmpError::NotImplemented (Python: NotImplementedError, outside the library's exception family) is for requests the
+    encoder cannot build; nothing a datagram contains makes a decoder return it."""
+    facts = ctx.facts
+    from .numrules import scope_closure, RECV_ROOTS
+    scope = scope_closure(ctx, RECV_ROOTS)
+    n = 0
+    for p in sorted(scope):
+        b = facts.bodies.get(p)
+        if b is None or not (b.file.startswith("src/ber/") or b.file.startswith("src/snmp/")) or b.name == "push_ber":
+            continue   # (a NoPriv/NoAuth stub may say NotImplemented: unwrap_pdu turns any decrypt error into "not for us")
+        for (bi, st, f, vn) in flow.aggregate_inits(b, "error::SnmpError"):
+            n += 1
+            if vn == "NotImplemented":
+                rep.violation(rule, "%s|NotImplemented" % p, "a decoder on the receive path returns SnmpError::NotImplemented: the caller gets NotImplementedError "
+                              "instead of an SnmpError subclass for a malformed or unsupported datagram", b.loc(st.get("line")), obligation=True)
+    rep.ok(rule, "receive path|SnmpError constructions", "%d constructions checked" % n)
+
